@@ -275,19 +275,28 @@ def evaluate(e, env, depth=0):
             return DISCR[x[1]]
         return UNK
     if k == "agg":
+        # the payload of a one-field variant is tracked when it has an abstract value of its own
+        # (a nested Result/Option/bool/int), so that `Ok(opt)?` followed by a match on `opt` is decided
+        pay = None
+        if e.c and len(e.c) == 1 and depth < 30:
+            pay = evaluate(e.c[0], env, depth + 1)
+            try:
+                hash(pay)
+            except TypeError:
+                pay = None
         if e.a == "std::result::Result":
-            return ("res", e.b, None)
+            return ("res", e.b, pay)
         if e.a == "std::option::Option":
-            return ("opt", e.b, None)
+            return ("opt", e.b, pay)
         if e.a == "std::ops::ControlFlow":
-            return ("cf", e.b, None)
+            return ("cf", e.b, pay)
         return UNK
     if k == "field":
         # payloads are not tracked, except tuple field .0 of an overflow pair
         x = evaluate(e.a, env, depth + 1)
         if isinstance(x, tuple) and x[0] == "ovf" and e.b in ("0",):
             return x[1]
-        if isinstance(x, tuple) and x[0] == "opt" and x[1] == "Some" and e.b == "Some.0" and len(x) > 2 and x[2] is not None:
+        if isinstance(x, tuple) and x[0] in ("opt", "res", "cf") and len(x) > 2 and x[2] is not None and e.b == x[1] + ".0":
             return x[2]
         return UNK
     return UNK
@@ -316,9 +325,9 @@ def eval_call(c, env, depth):
     if p == "std::ops::Try::branch":
         x = arg(0)
         if _is(x, "res"):
-            return ("cf", "Continue" if x[1] == "Ok" else "Break", None)
+            return ("cf", "Continue" if x[1] == "Ok" else "Break", x[2] if len(x) > 2 and x[1] == "Ok" else None)
         if _is(x, "opt"):
-            return ("cf", "Continue" if x[1] == "Some" else "Break", None)
+            return ("cf", "Continue" if x[1] == "Some" else "Break", x[2] if len(x) > 2 and x[1] == "Some" else None)
         return UNK
     if p == "std::ops::FromResidual::from_residual":
         ty = c.fn.locals[c.dest["l"]]
